@@ -142,7 +142,7 @@ contract('verif:contracts/harness.py::apply_then_linearize', ['C26'], BAL_LEMMA_
                   "(jacobian['y', 'mult:y'][i] * %s if comp._state_vars['y']['use_mult'] else 0)) for i in range(n))" % (D('lhs:y'), D('rhs:y'), D('mult:y')),
                   # no dependence of the residual on the state: linearize declares no (y, y) block
                   "('y', 'y') not in jacobian"],
-         modifies=["residuals['y']", 'jacobian'], inline={'apply_nonlinear', 'linearize', 'abs'}, defs=DUAL, native=native_bal,
+         modifies=["residuals['y']", 'jacobian'], inline={'apply_nonlinear', 'linearize', 'abs'}, defs=dict(DUAL, timeout_ms=40000), native=native_bal,
          name='lemma:BalanceComp jacobian is the derivative of the residual',
          canaries=[('d/dlhs loses the multiplier', ('deriv = mult * _scale_factor', 'deriv = _scale_factor'), 'post', BAL + '::BalanceComp.linearize'),
                    ('small-|rhs| branch of the normalisation derivative has the wrong factor', ('_dscale_drhs[idxs_nz] = -.5 * rhs[idxs_nz]', '_dscale_drhs[idxs_nz] = -.25 * rhs[idxs_nz]'), 'post', BAL + '::BalanceComp.linearize')])
